@@ -206,13 +206,14 @@ def closure_ok(root, D) -> bool:
         for l, _d in langs:
             if ref not in it[l]:
                 return False
-    # default marking
-    for l, d in langs:
-        if l == D:
-            if d != "true()":
+    # default marking: stated only for the case that the default language is one of the translations
+    if any(l == D for l, _d in langs):
+        for l, d in langs:
+            if l == D:
+                if d != "true()":
+                    return False
+            elif d is not None:
                 return False
-        elif d is not None:
-            return False
     return True
 
 
@@ -487,4 +488,81 @@ specialise(
     expect="known",
     reach=False,
     classifier=_classify_unlabeled,
+)
+
+
+# ---- c: language names that differ only by letter case are two languages ---------------------------
+LANG_PAIRS = [("En", "en"), ("L1", "l1"), ("fr", "FR")]
+def c07_langcase(pair: int, dsel: int, f_h: bool, f_l2: bool, rev: bool, c0: int) -> bool:
+    """
+    vpre: 0 <= dsel <= 2
+    vpre: 97 <= c0 <= 122
+    vpost: _ == True
+    """
+    A, B = LANG_PAIRS[pair]
+    D = ["default", A, B][dsel]
+    cells = [("label::" + A, S(c0, 49))]
+    if f_h:
+        cells.append(("hint::" + B, S(c0, 50)))
+    if f_l2:
+        cells.append(("label::" + B, S(c0, 51)))
+    if rev:
+        cells.reverse()
+    row = {"type": "text", "name": "q1"}
+    for k, v in cells:
+        row[k] = v
+    wb = {"survey": [row]}
+    if D != "default":
+        wb["settings"] = [{"default_language": D}]
+    survey, _w, _js = build_survey(wb)
+    return closure_ok(survey.xml(), D)
+
+
+specialise(
+    "C07",
+    "c.language-case",
+    c07_langcase,
+    {"pair": [0, 1, 2]},
+    timeout=300,
+    kernel=K,
+    shims=("S1", "S2", "S3", "S4"),
+    symbolic="default_language over {unset, first spelling, second spelling}, presence of a hint / label in the second spelling (2 booleans), column order (boolean), shared tracer character",
+    bounds="two language names that differ only by letter case, fixed per instance (language names are dict keys: concrete)",
+    weight=40,
+)
+
+
+# ---- d: labels and media of groups and repeats --------------------------------------------------------
+def c07_section_media(kind: int, f_lab: bool, f_lab1: bool, f_img: bool, f_img1: bool, f_q1: bool, c0: int) -> bool:
+    """
+    vpre: 97 <= c0 <= 122
+    vpost: _ == True
+    """
+    sec = {"type": "begin " + ("group", "repeat")[kind], "name": "s"}
+    if f_lab:
+        sec["label"] = S(c0, 49)
+    if f_lab1:
+        sec["label::L1"] = S(c0, 50)
+    if f_img:
+        sec["image"] = "a.png"
+    if f_img1:
+        sec["image::L1"] = "b.png"
+    q = {"type": "text", "name": "q1", "label": "Q"}
+    if f_q1:
+        q["label::L1"] = S(c0, 51)
+    survey, _w, _js = build_survey({"survey": [sec, q, {"type": "end " + ("group", "repeat")[kind]}]})
+    return closure_ok(survey.xml(), "default")
+
+
+specialise(
+    "C07",
+    "d.section-media",
+    c07_section_media,
+    {"kind": [0, 1]},
+    timeout=400,
+    kernel=K + ("pyxform.section:GroupedSection.xml_control", "pyxform.section:RepeatingSection.xml_control"),
+    shims=("S1", "S2", "S3", "S4"),
+    symbolic="presence of label, label::L1, image, image::L1 on the section row and of a translated label on the inner question (5 symbolic booleans: includes sections with media and no label text), shared tracer character",
+    bounds="one group / repeat (fixed per instance) around one question",
+    weight=60,
 )
